@@ -238,6 +238,9 @@ func randomLine(r *vlib.Rand, cli bool) line {
 			return line{"granularity=" + g, event{Ev: "assign", Opt: "g", Text: g}}
 		}
 		b := r.Intn(2) == 0
+		if r.Intn(3) == 0 {
+			return line{fmt.Sprintf("mean=%v", b), event{Ev: "assign", Opt: "mean", B: b}}
+		}
 		return line{fmt.Sprintf("relative_percentages=%v", b), event{Ev: "assign", Opt: "rel", B: b}}
 	case k < 8:
 		kind := "top"
@@ -763,5 +766,5 @@ func main() {
 	for i := 0; i < n; i++ {
 		oneRun(i, r)
 	}
-	run.Finish("whole runs of driver.PProf observed at the plug-in boundaries: 1-3 sources and 0-2 -base or -diff_base sources (each failing with probability 1/5), profile-level drop/keep frame rules, sources that are symbolized or address-only (the names then come from the Symbolizer plug-in, before the drop rules apply), x command-line mode, interactive sessions of 1-5 lines (focus / ignore / hide / show / tagfocus / tagignore / granularity / sample_index / relative_percentages assignments, top / tree / traces reports with per-command arguments, rejected and ignored lines) or a web server answering /top requests with per-request options, concretised with varying id layouts; every boundary event validated by TLC against the machine of Pprof.tla; non-trivial = distinct (mode, sources, lines)")
+	run.Finish("whole runs of driver.PProf observed at the plug-in boundaries: 1-3 sources and 0-2 -base or -diff_base sources (each failing with probability 1/5), profile-level drop/keep frame rules, sources that are symbolized or address-only (the names then come from the Symbolizer plug-in, before the drop rules apply), x command-line mode, interactive sessions of 1-5 lines (focus / ignore / hide / show / tagfocus / tagignore / granularity / sample_index / mean / relative_percentages assignments, top / tree / traces reports with per-command arguments, rejected and ignored lines) or a web server answering /top requests with per-request options, concretised with varying id layouts; every boundary event validated by TLC against the machine of Pprof.tla; non-trivial = distinct (mode, sources, lines)")
 }
